@@ -348,3 +348,21 @@ func Mutations(text string) []Mutation {
 	}
 	return out
 }
+
+// JunkInsertions returns the text with junk (characters no token of the grammar starts with, e.g. "!") inserted before every
+// non-blank token and at the end: inputs with content the lexer has to skip.
+func JunkInsertions(text, junk string) []Mutation {
+	toks, _ := Lex(text)
+	rs := []rune(text)
+	var out []Mutation
+	n := 0
+	for _, t := range toks {
+		if t.Type == parser.CypherLexerSP || t.Start > len(rs) {
+			continue
+		}
+		out = append(out, Mutation{string(rs[:t.Start]) + junk + string(rs[t.Start:]), fmt.Sprintf("junk@%d", n)})
+		n++
+	}
+	out = append(out, Mutation{text + junk, "junk@end"})
+	return out
+}
